@@ -330,11 +330,96 @@ var c14BadArg = hx.Define("c14.non-string-argument", func(c *c14ArgCase, s *hx.S
 	return nil
 })
 
+// "any error inside the included template fails the render": a break or continue that is outside every loop of
+// the included template is such an error (rendering that file directly fails), also when the include tag stands in a loop
+
+type c14StrayCase struct {
+	Inner string `json:"inner"` // content of the included file
+	Outer string `json:"outer"` // includer; %INC% marks the include tag
+	Cache bool   `json:"cache"` // the file exists only as cached source
+}
+
+var c14Stray = hx.Define("c14.error-inside-included", func(c *c14StrayCase, s *hx.Sub) *hx.Violation {
+	base := os.Getenv("VERIF_OUT")
+	if base == "" {
+		base = os.TempDir()
+	}
+	c14Seq++
+	dir, err := os.MkdirTemp(base, fmt.Sprintf("c14s-%d-", c14Seq))
+	if err != nil {
+		return hx.V("harness-error", "mkdir: %v", err)
+	}
+	defer os.RemoveAll(dir)
+	eng := newEngine(nil)
+	if c.Cache {
+		if _, perr := eng.ParseTemplateAndCache([]byte(c.Inner), filepath.Join(dir, "inner.html"), 1); perr != nil {
+			s.Exclude()
+			return nil
+		}
+	} else if err := os.WriteFile(filepath.Join(dir, "inner.html"), []byte(c.Inner), 0o644); err != nil {
+		return hx.V("harness-error", "write: %v", err)
+	}
+	binds := map[string]any{"a": []any{1, 2, 3}, "n": 0}
+	render := func(src, name string) (out string, rerr error, pi *hx.PanicInfo) {
+		pi = hx.Guard(func() {
+			tpl, perr := eng.ParseTemplateLocation([]byte(src), filepath.Join(dir, name), 1)
+			if perr != nil {
+				rerr = perr
+				return
+			}
+			var o []byte
+			var e liquid.SourceError
+			o, e = tpl.Render(binds)
+			out = string(o)
+			if e != nil {
+				rerr = e
+			}
+		})
+		return
+	}
+	// the premise: rendering the file's content directly fails
+	if _, derr, pi := render(c.Inner, "direct.html"); pi != nil || derr == nil {
+		s.Exclude()
+		return nil
+	}
+	src := strings.ReplaceAll(c.Outer, "%INC%", `{% include "inner.html" %}`)
+	out, rerr, pi := render(src, "top.html")
+	if pi != nil {
+		return hx.V("panic@"+pi.Site, "%q including %q: %v", src, c.Inner, pi)
+	}
+	if rerr == nil {
+		return hx.V("c14:inner-error-lost", "%q with inner.html = %q rendered %q without an error, although rendering inner.html directly fails", src, c.Inner, out)
+	}
+	if out != "" {
+		return hx.V("c14:output-with-error", "%q with inner.html = %q returned output %q together with %v", src, c.Inner, out, rerr)
+	}
+	s.NT()
+	if s.WantSample() {
+		s.Sample(map[string]any{"includer": src, "inner.html": c.Inner, "error": rerr.Error()})
+	}
+	return nil
+})
+
 func TestC14(t *testing.T) {
 	col := hx.NewCollector("C14")
 	defer col.Finish()
 	col.Corpus()
 	env := col.Env
+
+	st := c14Stray.On(col, "exhaustive over a list: included files whose content fails when rendered directly (break / continue outside a loop, also nested in if and capture - not cycle, which works off the includer's forloop variable; a filter error; an unknown filter; a missing nested include) x includers with the include tag at top level, inside for, tablerow, nested loops, if inside a loop, capture inside a loop x file on disk / cached source. Oracle: the render fails with a SourceError and returns no output. Distinct by construction", true)
+	{
+		i := 0
+		for _, inner := range []string{"a{% break %}b", "a{% continue %}b", "{% if true %}{% break %}{% endif %}", "{% capture x %}{% continue %}{% endcapture %}", "{{ 1 | divided_by: n }}", "{{ 1 | nosuchfilter }}", "x{% include \"nowhere.html\" %}", "{% for i in a %}{{ i }}{% endfor %}{% break %}"} {
+			for _, outer := range []string{"%INC%", "{% for i in a %}{{ i }}%INC%{% endfor %}", "{% tablerow i in a %}{{ i }}%INC%{% endtablerow %}", "{% for i in a %}{% for j in a %}%INC%{% endfor %}{% endfor %}", "{% for i in a %}{% if i == 2 %}%INC%{% endif %}{{ i }}{% endfor %}", "{% for i in a %}{% capture c %}%INC%{% endcapture %}{{ c }}{% endfor %}"} {
+				for _, cache := range []bool{false, true} {
+					i++
+					if env.Mine(i) {
+						st.Run(&c14StrayCase{Inner: inner, Outer: outer, Cache: cache})
+					}
+				}
+			}
+		}
+	}
 
 	g := c14Graph.On(col, "rapid: acyclic include graphs (chains up to depth 4 in the top template's directory, leaves in nested sub-directories and above the directory (../up.html), the same base name in several directories with distinct content; for a third of the cases a second top-level template in the sub-directory d1 is rendered on the same engine afterwards and reaches the same files under other relative names) laid out in a fresh temporary directory per case; every file is independently on disk, only registered through ParseTemplateAndCache, both with different content, zero bytes on disk with cached source, or missing; include arguments spelled as double/single-quoted literals, bound variables, variables assigned earlier in the render and filtered expressions; bodies print bound and includer-assigned variables, loop and branch. Metamorphic oracle: render(T) = render(T with every include replaced, recursively, by the content the statement selects: disk over cache), same path and bindings; a missing file fails the render with no output; an error inside an included template fails both. Non-trivial: an include resolved from a nested directory, from the cache, or with disk and cache disagreeing; distinct by layout", false)
 	texts := []string{"t", " [{{ n }}] ", "{{ s | upcase }}", "{% assign pv = n | plus: 1 %}{{ pv }}", "{% if n == 1 %}one{% else %}other{% endif %}", "{% for q in a %}{{ q }},{% endfor %}", "{{ shared }}", "\n", "{% assign shared = \"set-by-includer\" %}", "{{ 1 | divided_by: n }}", "20% off %d %s%%", "{% raw %}{% if x %}{% endraw %}",
